@@ -131,7 +131,13 @@ def conc_case(args):
         abort, shared = forced['abort'], True
         body = [small_op(True) for _ in range(forced['n'])]
         block = [{'m': 'tbegin', 'now': 1000}] + body + [{'m': 'traise', 'now': 1000, 'n': 1} if abort else {'m': 'tend', 'now': 1000}]
-        programs = {0: block, 1: [{'m': 'set', 'now': 1000, 'k': forced['k'], 'v': BIG2, 'ttl': None, 'tag': None}]}
+        other = {'set': {'m': 'set', 'now': 1000, 'k': forced['k'], 'v': BIG2, 'ttl': None, 'tag': None},
+                 # calls that remove a value file AFTER their own commit, outside any block of their own
+                 'pop': {'m': 'pop', 'now': 1000, 'k': 'a'},
+                 'pull': {'m': 'pull', 'now': 1000, 'prefix': None, 'side': 'front'}}[forced.get('other', 'set')]
+        if forced.get('other') == 'pull':
+            preset = preset + [{'m': 'push', 'now': 1000, 'v': BIG2, 'prefix': None, 'side': 'back', 'ttl': None, 'tag': None}]
+        programs = {0: block, 1: [other]}
         units = {0: [list(range(len(block)))], 1: [[0]]}
     out = []
     bound = (18 if tier == 'quick' else 32) if not forced else 45
@@ -141,6 +147,12 @@ def conc_case(args):
             scheds.append([a] * k + [b] * 400 + [a] * 400)
     for _ in range(4 if tier == 'quick' else 16):
         scheds.append(rng.choices([0, 1], k=rng.randint(5, 60)))
+    if forced and forced.get('other'):
+        # two preemptions: the other client runs up to just after its COMMIT, the block owner gets in,
+        # the other client finishes (its file removal happens now), the owner ends its block
+        for k in range(0, 16):
+            for j in range(1, 7):
+                scheds.append([1] * k + [0] * j + [1] * 400 + [0] * 400)
     for sch in scheds:
         run = conc.run_concurrent(cfg, preset, programs, sch, shared=shared)
         why = conc.explain(run, programs, cfg, units=units)
@@ -164,6 +176,9 @@ def run(tier, seed, rng, known, replay):
         jobs.append((rng.getrandbits(48), tier, {'abort': abort, 'n': n, 'k': k}))
     for abort in (True, False):
         jobs.append((rng.getrandbits(48), tier, {'both': True, 'abort': abort}))
+    for other in ('pop', 'pull'):
+        for abort in (True, False):
+            jobs.append((rng.getrandbits(48), tier, {'abort': abort, 'n': 2, 'k': 'b', 'other': other}))
     with ProcessPoolExecutor(max_workers=16) as ex:
         cases = list(ex.map(conc_case, jobs, chunksize=1))
     runs = 0
